@@ -615,7 +615,7 @@ pub fn scenario(thorough: bool) -> BoxedStrategy<Scenario> {
         .prop_flat_map(move |((c_chunk, s_chunk), (c_window, s_window))| {
             (
                 (Just(c_chunk), Just(s_chunk), Just(c_window), Just(s_window)),
-                (any::<bool>(), "[a-z]{1,8}(/[a-z0-9]{1,5})?/?", "[a-zA-Z0-9_?=&-]{1,16}", 0u8..3),
+                (any::<bool>(), prop_oneof![6 => "[a-z]{1,8}(/[a-z0-9]{1,5})?/?", 2 => "[a-zA-Z0-9 _.-]{1,12}(/[A-Za-z0-9]{1,5}){0,2}/{0,3}", 1 => "\\PC{1,8}/{0,2}", 1 => gen::pick(&["live//", "a/b//", "//", "Live", "LIVE/", "live ", " live", "app\u{0}x", "ünï/çødé/"]).prop_map(|x| x.to_string())], prop_oneof![6 => "[a-zA-Z0-9_?=&-]{1,16}", 2 => "\\PC{1,12}", 1 => "[a-z]{1,4}(/[a-z]{1,4}){1,3}/?", 1 => gen::pick(&["key ", " key", "KEY", "key/", "/key", "a?b=c&d=e", "k\u{0}", "üñí"]).prop_map(|x| x.to_string()), 1 => (200usize..1500).prop_map(|n| "k".repeat(n))], 0u8..3),
                 (gen::edge_u32(), proptest::option::weighted(0.3, "rtmp://[a-z]{1,8}/[a-z]{1,5}"), gen::edge_u32(), any::<bool>()),
                 media_script(c_chunk, s_chunk, cap, 12),
                 proptest::collection::vec((any::<bool>(), prop_oneof![3 => 1u16..20, 3 => 1u16..300, 1 => 300u16..5000]), 0..80),
